@@ -180,5 +180,5 @@ func (r *sampleRegistry) RegisterCount(string, ...string) core.MetricSampleListe
 	return &sampleListener{r}
 }
 func (r *sampleRegistry) RegisterGauge(string, core.MetricSupplier, ...string) {}
-func (r *sampleRegistry) Start()                                           {}
-func (r *sampleRegistry) Stop()                                            {}
+func (r *sampleRegistry) Start()                                               {}
+func (r *sampleRegistry) Stop()                                                {}
